@@ -111,6 +111,11 @@ def make_plan(case, mode):
 def run_pass(case, mode, checks):
     req = {'mode': mode, 'plan': make_plan(case, mode), 'checks': checks}
     env = dict(os.environ)
+    # each history runs under another hash salt of the interpreter (the
+    # iteration order of sets of str / bytes follows it): ambient process
+    # state that is neither an argument nor the seed
+    env['PYTHONHASHSEED'] = {'solo': '11', 'h1': '222', 'h2': '3333'}.get(
+        mode, '0')
     p = subprocess.run([sys.executable, '-B', '-W', 'ignore', '-m',
         'tvmon.c10pass'], input=json.dumps(req), capture_output=True,
         text=True, cwd=HERE, env=env, timeout=900)
